@@ -11,7 +11,21 @@ import zipfile
 from typing import Any, Dict, List, Optional, Tuple
 
 import common
-from common import Ctx, hx, unhx, run_model
+from common import Ctx, hx, unhx
+from common import run_model as _run_model
+
+
+def run_model(name: str, lines):
+    """common.run_model; retried when the binary is being re-linked by a concurrent check (rc 126, text busy)"""
+    import time
+    lines = list(lines)
+    for attempt in range(6):
+        try:
+            return _run_model(name, lines)
+        except RuntimeError as ex:
+            if attempt == 5 or not any(t in str(ex) for t in ("rc=126", "Text file busy", "Permission denied", "No such file")):
+                raise
+            time.sleep(2.0)
 
 ID = "C14"
 PROPS = ["props/C14.v"]
